@@ -22,9 +22,11 @@ def isLive (a : Arena) (i : Nat) : Bool := decide (i < a.size) && !(nd a i).dele
 theorem isLive_iff (a : Arena) (i : Nat) : isLive a i = true ↔ live a i := by
   simp [isLive, live]
 
-/-- recursion fuel handed to the recursive operations by the executable model: one more than the number
-    of slots (no simple path in the arena is longer).  Theorems obtain adequacy from a depth bound. -/
-def fuelOf (a : Arena) : Nat := a.size + 1
+/-- recursion fuel handed to the recursive operations by the executable model: more than twice the number
+    of slots (no simple path in the arena is longer than the number of slots; the factor two covers the
+    ghost-rank argument of the regrouping step).  Theorems obtain adequacy from the depth bound
+    `depth < size` that the invariant implies. -/
+def fuelOf (a : Arena) : Nat := 2 * a.size + 3
 
 /-- `Tree::add(Node::new())` / `Tree::add(Node::new_named(name))` -/
 def add (a : Arena) (name : Option String) : Arena × Nat :=
